@@ -61,3 +61,30 @@ Proof. intros Hi Hn Hb Ho. unfold holds_ppos, model_ppos.
     apply wrap32_id. unfold in_i32, two31, two32 in *. change (2 ^ 30) with 1073741824 in Hp30. lia. }
   rewrite Hoff. rewrite compute_position_spec by (try assumption; lia).
   unfold spec_position, ok_eq. apply Z.eqb_refl. Qed.
+
+Lemma wrap32_plus3_neq z : wrap32 z <> wrap32 (z - 3).
+Proof. unfold wrap32, two31, two32. intro H.
+  pose proof (Z.div_mod (z + 2147483648) 4294967296 ltac:(lia)).
+  pose proof (Z.div_mod (z - 3 + 2147483648) 4294967296 ltac:(lia)).
+  pose proof (Z.mod_pos_bound (z + 2147483648) 4294967296 ltac:(lia)).
+  pose proof (Z.mod_pos_bound (z - 3 + 2147483648) 4294967296 ltac:(lia)).
+  lia. Qed.
+
+Lemma oracle_rotate_late_model m init n s :
+  in_i32 init = true -> 0 <= n < two31 - 2 -> meta_consistent init (n + 1) s ->
+  holds_rotate_late s (rotate_log m s n (wrap32 (init + n))) = true.
+Proof. intros Hi Hn (Hc & Ht & _).
+  unfold rotate_log, add32, chk32.
+  assert (Hrr : in_i32 (n + 1) = true) by (unfold in_i32, two31 in *; lia).
+  rewrite Hrr. cbn [bind].
+  assert (Hidx : index_by_term_count (n + 1) = (n + 1) mod 3).
+  { unfold index_by_term_count, PARTITION_COUNT, GenConsts.PARTITION_COUNT. rewrite rem3_nonneg by lia.
+    apply wrap32_id. pose proof (Z.mod_pos_bound (n + 1) 3 ltac:(lia)). unfold in_i32, two31. lia. }
+  rewrite Hidx. rewrite Ht.
+  rewrite wrap32_add_wrap32.
+  replace (init + n + 1) with (init + (n + 1)) by ring.
+  unfold PARTITION_COUNT, GenConsts.PARTITION_COUNT.
+  destruct (wrap32 (init + (n + 1)) =? wrap32 (wrap32 (init + (n + 1)) - 3)) eqn:E.
+  - apply Z.eqb_eq in E. rewrite wrap32_sub_wrap32 in E. exfalso. exact (wrap32_plus3_neq _ E).
+  - rewrite Hc. replace (n + 1 =? n) with false by (symmetry; apply Z.eqb_neq; lia).
+    unfold holds_rotate_late, meta_eqb. rewrite !Z.eqb_refl. reflexivity. Qed.
